@@ -440,6 +440,10 @@ func (f *Frame) backEdge(li *loopInfo, from *ssa.BasicBlock, cond string) {
 			t := f.loopExpr(li, li.spec.Decreases, phis, f.cur, li.headState)
 			li.addPending(fmt.Sprintf("loop%d/decreases", li.n), "decreases", Imp(cond, And(S("<=", "0", li.measure), S("<", t, li.measure))), li.spec.Decreases.Text)
 		}
+		for i, be := range li.spec.BodyEns {
+			t := f.bodyExpr(li, be, phis, from)
+			li.addPending(fmt.Sprintf("loop%d/%s", li.n, clauseName(be, "body", i)), "body-ensures", Imp(cond, t), be.Text)
+		}
 		// loop frame: the body changes only what the loop's modifies clause lists
 		if len(li.frameKeys) > 0 {
 			for _, k := range li.frameKeys {
@@ -483,6 +487,80 @@ func (f *Frame) flushLoops() {
 	f.curReach = save
 }
 
+// bodyExpr translates a per-iteration clause at a back edge: plain names and
+// heap reads denote the state at the back edge, old(...) the state at the loop
+// head of the same iteration.
+func (f *Frame) bodyExpr(li *loopInfo, c *Clause, phis map[*ssa.Phi]string, from *ssa.BasicBlock) string {
+	env := f.baseEnv(f.cur)
+	env.old = stateHeap{f, li.headState}
+	cur := f.cur
+	env.lookup = func(name string) (TV, bool) {
+		if name == "_k" && li.isRange != nil {
+			if t, ok := phis[li.isRange]; ok {
+				return TV{S("+", t, "1"), types.Typ[types.Int]}, true
+			}
+		}
+		for phi, t := range phis {
+			if phi.Comment == name {
+				return TV{t, phi.Type()}, true
+			}
+		}
+		return f.lookupVarFrom(name, from, cur)
+	}
+	env.lookupOld = func(name string) (TV, bool) {
+		if name == "_k" && li.isRange != nil {
+			if t, ok := li.headPhis[li.isRange]; ok {
+				return TV{S("+", t, "1"), types.Typ[types.Int]}, true
+			}
+		}
+		for phi, t := range li.headPhis {
+			if phi.Comment == name {
+				return TV{t, phi.Type()}, true
+			}
+		}
+		return f.lookupVarAt(name, li.head, li.headState)
+	}
+	tv, err := env.tr(c.Expr)
+	if err != nil {
+		f.vc.errorf("%s:%d: %v", c.File, c.Line, err)
+		return "true"
+	}
+	return tv.T
+}
+
+// bodyRetExpr translates a body_returns clause at a return inside the loop:
+// old(...) is the loop-head state of the iteration, result the returned value.
+func (f *Frame) bodyRetExpr(li *loopInfo, c *Clause, from *ssa.BasicBlock, res []string) string {
+	env := f.baseEnv(f.cur)
+	env.old = stateHeap{f, li.headState}
+	cur := f.cur
+	env.lookup = func(name string) (TV, bool) { return f.lookupVarFrom(name, from, cur) }
+	env.lookupOld = func(name string) (TV, bool) {
+		if name == "_k" && li.isRange != nil {
+			if t, ok := li.headPhis[li.isRange]; ok {
+				return TV{S("+", t, "1"), types.Typ[types.Int]}, true
+			}
+		}
+		for phi, t := range li.headPhis {
+			if phi.Comment == name {
+				return TV{t, phi.Type()}, true
+			}
+		}
+		return f.lookupVarAt(name, li.head, li.headState)
+	}
+	rs := f.fn.Signature.Results()
+	for i := 0; i < rs.Len() && i < len(res); i++ {
+		env.results = append(env.results, TV{res[i], rs.At(i).Type()})
+	}
+	env.resultNames = resultNames(f.fn)
+	tv, err := env.tr(c.Expr)
+	if err != nil {
+		f.vc.errorf("%s:%d: %v", c.File, c.Line, err)
+		return "true"
+	}
+	return tv.T
+}
+
 // loopExpr translates a loop clause with the loop's phis bound to the given terms.
 func (f *Frame) loopExpr(li *loopInfo, c *Clause, phis map[*ssa.Phi]string, st *State, old *State) string {
 	env := f.baseEnv(st)
@@ -513,6 +591,11 @@ func (f *Frame) loopExpr(li *loopInfo, c *Clause, phis map[*ssa.Phi]string, st *
 // in state st: the nearest dominating reference decides which object is meant
 // (shadowing); an address-taken variable is read from its cell.
 func (f *Frame) lookupVarAt(name string, b *ssa.BasicBlock, st *State) (TV, bool) {
+	return f.lookupVarFrom(name, b.Idom(), st)
+}
+
+// lookupVarFrom scans block d (wholly) and then its dominators.
+func (f *Frame) lookupVarFrom(name string, d0 *ssa.BasicBlock, st *State) (TV, bool) {
 	cellOf := func(obj types.Object) (TV, bool) {
 		for _, r := range f.debug[name] {
 			if r.obj != obj || !r.addr {
@@ -529,7 +612,7 @@ func (f *Frame) lookupVarAt(name string, b *ssa.BasicBlock, st *State) (TV, bool
 		}
 		return TV{}, false
 	}
-	for d := b.Idom(); d != nil; d = d.Idom() {
+	for d := d0; d != nil; d = d.Idom() {
 		for i := len(d.Instrs) - 1; i >= 0; i-- {
 			switch in := d.Instrs[i].(type) {
 			case *ssa.Phi:
@@ -686,4 +769,28 @@ func (f *Frame) nameCount(base string) string {
 		return base
 	}
 	return fmt.Sprintf("%s#%d", base, f.ncall[base])
+}
+
+// loopsLeftFromBody lists the loops that block b leaves from inside an
+// iteration: walking up b's dominators, the first block of the loop's body met
+// is not the loop head (the normal exit of a loop is taken at its head).
+func (f *Frame) loopsLeftFromBody(b *ssa.BasicBlock) []*loopInfo {
+	var out []*loopInfo
+	for _, li := range f.loops {
+		if li.body[b] {
+			// still inside the loop (a return cannot be, but be safe)
+			out = append(out, li)
+			continue
+		}
+		for d := b.Idom(); d != nil; d = d.Idom() {
+			if li.body[d] {
+				if d != li.head {
+					out = append(out, li)
+				}
+				break
+			}
+		}
+	}
+	sort.Slice(out, func(i, j int) bool { return out[i].n < out[j].n })
+	return out
 }
